@@ -20,6 +20,43 @@ thread_local! {
     static ALLOC_ARMED: std::cell::Cell<bool> = const { std::cell::Cell::new(false) };
     static ALLOC_COUNT: std::cell::Cell<u64> = const { std::cell::Cell::new(0) };
     pub static PANIC_LOC: std::cell::RefCell<String> = const { std::cell::RefCell::new(String::new()) };
+    /// pixels offered to an "unbounded" recording target (`Rec::unbounded()`, +-2^20) that fell outside it and were
+    /// therefore NOT recorded: (count, first such point). Read and reset by main.rs after every op (`far_pixels_take`).
+    static FAR_PIXELS: std::cell::Cell<(u64, i32, i32)> = const { std::cell::Cell::new((0, 0, 0)) };
+}
+fn far_note(n: u64, p: Point) {
+    if n > 0 {
+        FAR_PIXELS.with(|f| {
+            let (k, x, y) = f.get();
+            f.set(if k == 0 { (n, p.x, p.y) } else { (k + n, x, y) });
+        });
+    }
+}
+/// (number of pixels an unbounded recording target had to drop since the last call, the first of them); resets.
+pub fn far_pixels_take() -> (u64, i32, i32) {
+    FAR_PIXELS.with(|f| f.replace((0, 0, 0)))
+}
+/// The box of the "unbounded" recording targets.
+pub const UNBOUNDED_HALF: i32 = 1 << 20;
+/// An op is of display scale when every number in its text is at most 2^18 in magnitude (so that sums of a position,
+/// an offset and a size stay well inside the +-2^20 recording range): a pixel outside that range is then an alarm
+/// (class `pixel-outside-the-recording-range`), whatever property is being checked.
+pub fn op_is_display_scale(op: &str) -> bool {
+    let mut cur: u64 = 0;
+    let mut digits = 0;
+    for b in op.bytes().chain(std::iter::once(b' ')) {
+        if b.is_ascii_digit() {
+            cur = cur.saturating_mul(10).saturating_add((b - b'0') as u64);
+            digits += 1;
+        } else {
+            if digits > 0 && cur > (1 << 18) {
+                return false;
+            }
+            cur = 0;
+            digits = 0;
+        }
+    }
+    true
 }
 unsafe impl std::alloc::GlobalAlloc for CountingAlloc {
     unsafe fn alloc(&self, l: std::alloc::Layout) -> *mut u8 {
@@ -107,6 +144,9 @@ pub struct Ctx {
     pub cur_op: usize,
     pub nontrivial: HashSet<u64>,
     pub oracle_checks: u64,
+    /// how often each oracle class was EVALUATED through `expect` (not: failed), for the evidence: a class whose
+    /// `Cxx:` prefix names a property whose check never evaluates it is dead
+    pub class_evals: std::collections::HashMap<String, u64>,
 }
 impl Ctx {
     pub fn new(tier: Tier, pid: &str) -> Self {
@@ -118,6 +158,7 @@ impl Ctx {
             cur_op: 0,
             nontrivial: HashSet::new(),
             oracle_checks: 0,
+            class_evals: std::collections::HashMap::new(),
         }
     }
     pub fn count(&mut self, key: &str) {
@@ -142,6 +183,12 @@ impl Ctx {
     /// Check helper: records a failure when `ok` is false.
     pub fn expect(&mut self, ok: bool, class: &str, detail: impl FnOnce() -> String) {
         self.oracle_checks += 1;
+        match self.class_evals.get_mut(class) {
+            Some(n) => *n += 1,
+            None => {
+                self.class_evals.insert(class.to_string(), 1);
+            }
+        }
         if !ok {
             let d = detail();
             self.fail(class, d);
@@ -347,10 +394,14 @@ pub struct Rec {
     /// hard cap on pixels per call, so a runaway iterator is reported instead of hanging
     pub budget: u64,
     pub budget_exceeded: bool,
+    /// the box is the +-2^20 box of `unbounded()`: pixels outside it are reported (`far_pixels_take`), not only counted
+    pub unbounded: bool,
 }
 impl Rec {
     pub fn new(bbox: Rectangle) -> Self {
+        let unbounded = bbox.top_left == Point::new(-UNBOUNDED_HALF, -UNBOUNDED_HALF) && bbox.size == Size::new(1 << 21, 1 << 21);
         Rec {
+            unbounded,
             bbox,
             map: PMap::new(),
             log: Vec::new(),
@@ -363,9 +414,13 @@ impl Rec {
             budget_exceeded: false,
         }
     }
+    /// "Unbounded": +-2^20 in both directions. Pixels outside are NOT recorded; they are counted in `outside` and
+    /// reported through `far_pixels_take` (main.rs turns them into the failure class
+    /// `pixel-outside-the-recording-range` for ops of display scale), so a picture oracle on such a target is not
+    /// blind to far strays.
     pub fn unbounded() -> Self {
         Rec::new(Rectangle::new(
-            Point::new(-(1 << 20), -(1 << 20)),
+            Point::new(-UNBOUNDED_HALF, -UNBOUNDED_HALF),
             Size::new(1 << 21, 1 << 21),
         ))
     }
@@ -393,6 +448,9 @@ impl Rec {
             self.map.insert((p.y, p.x), c);
         } else {
             self.outside += 1;
+            if self.unbounded {
+                far_note(1, p);
+            }
         }
     }
     /// Documented meaning of `fill_solid` / `clear`: every point of `area` that lies in the box gets
@@ -416,7 +474,13 @@ impl Rec {
             }
             inside = ((x1 - x0) * (y1 - y0)) as u64;
         }
-        self.outside += (area.size.width as u64 * area.size.height as u64).saturating_sub(inside);
+        let out = (area.size.width as u64 * area.size.height as u64).saturating_sub(inside);
+        self.outside += out;
+        if self.unbounded && *area != self.bbox {
+            // a corner of the area that is outside the box
+            let far = if ax0 < bx0 || ay0 < by0 { area.top_left } else { Point::new((ax1 - 1).min(i32::MAX as i64) as i32, (ay1 - 1).min(i32::MAX as i64) as i32) };
+            far_note(out, far);
+        }
     }
     pub fn fmt_map(&self) -> String {
         fmt_map(&self.map)
@@ -489,6 +553,29 @@ pub fn fmt_map(m: &PMap) -> String {
         s.push('-');
     }
     s
+}
+
+/// `m` restricted to the box `b`, by plain interval arithmetic in i64 (not `Rectangle::contains`): what a bounded
+/// target with bounding box `b` must show of a picture whose unbounded form is `m`.
+pub fn restrict_map(m: &PMap, b: &Rectangle) -> PMap {
+    let (x0, y0) = (b.top_left.x as i64, b.top_left.y as i64);
+    let (x1, y1) = (x0 + b.size.width as i64, y0 + b.size.height as i64);
+    m.iter().filter(|((y, x), _)| x0 <= *x as i64 && (*x as i64) < x1 && y0 <= *y as i64 && (*y as i64) < y1).map(|(k, v)| (*k, *v)).collect()
+}
+/// Degenerate target boxes for the bounded-target oracles of an object whose own (non-empty) box is `bb`:
+/// an EMPTY box (0 x 0) and a FLAT one (w x 0) at the object's top-left corner, a box of zero WIDTH (0 x h), and a
+/// DISJOINT box of the object's size far away (to the lower right / to the upper left in turn). Nothing may be
+/// recorded on any of them; everything else the drawing returns (next text position) must be what it is on an
+/// unbounded target.
+pub fn degenerate_boxes(bb: &Rectangle) -> [(&'static str, Rectangle); 5] {
+    let s = bb.size;
+    [
+        ("empty-0x0", Rectangle::new(bb.top_left, Size::new(0, 0))),
+        ("flat-wx0", Rectangle::new(bb.top_left, Size::new(s.width.max(1), 0))),
+        ("flat-0xh", Rectangle::new(bb.top_left + Point::new(1, 1), Size::new(0, s.height.max(1)))),
+        ("disjoint-lower-right", Rectangle::new(bb.top_left + Point::new(s.width as i32 + 1000, s.height as i32 + 777), Size::new(s.width.max(1), s.height.max(1)))),
+        ("disjoint-upper-left", Rectangle::new(bb.top_left - Point::new(s.width as i32 + 1000, s.height as i32 + 777), Size::new(s.width.max(1), s.height.max(1)))),
+    ]
 }
 
 pub struct R1<C: ColNum> {
